@@ -611,6 +611,15 @@ impl Tracer {
                 }
                 Some(StopReason::SignalStop(_, signal)) => {
                     if QUIET_SIGNALS.contains(&signal) {
+                        // the signal is injected right here: drop the entry `apply_new_status` has just
+                        // queued, otherwise the next `resume` injects it a second time
+                        if let Some(pos) = self
+                            .inject_signal_queue
+                            .iter()
+                            .rposition(|(p, s)| *p == pid && *s == signal)
+                        {
+                            self.inject_signal_queue.remove(pos);
+                        }
                         self.tracee_ctl.tracee_ensure(pid).step(Some(signal))?;
                         continue;
                     }
